@@ -203,10 +203,19 @@ func VerifC18NameShape() {
 
 // C18 TLD syntax through registerTLD by the committee and isAvailable on an NNS without TLDs.
 func VerifC18TLD() {
-	vDeploy("nns", []any{})
+	// param 1 = 1: the NNS already has TLDs, among them hyphenated ones whose proper prefixes are NOT valid
+	// labels ("ab-", "c-"): what is a valid name must not depend on which roots are registered
+	if vParam(1) == 1 {
+		vDeploy("nns", []any{[]any{"com", "ops@nspcc.io"}, []any{"ab-cd", "ops@nspcc.io"}, []any{"c-d", "ops@nspcc.io"}})
+	} else {
+		vDeploy("nns", []any{})
+	}
 	s := string(vBytes("tld", vParam(0)))
 	vAssume(noSep(s, '.'))
 	want := RefName(s)
+	if vParam(1) == 1 { // a registered root is a valid name that is not available and cannot be registered again
+		vAssume(s != "com" && s != "ab-cd" && s != "c-d")
+	}
 	ok, _ := vRead("nns", "isAvailable", s)
 	vAssert(ok == want, "C18/isAvailable-accepts-exactly-valid-TLDs")
 	vSign(vCommitteeAcct(), true)
@@ -215,5 +224,9 @@ func VerifC18TLD() {
 	vCover("checked")
 	if vParam(0) >= 3 && vParam(0) <= 16 {
 		vRequire(done, "registered")
+	}
+	if vParam(1) == 1 { // the same string as the last label of a second-level name
+		okn, _ := vRead("nns", "isAvailable", "x."+s)
+		vAssert(!okn || want, "C18/isAvailable-accepts-exactly-valid-names")
 	}
 }
